@@ -185,7 +185,7 @@ def check_positions(chk):
                         v = v[:j] + "\ufffd" + v[j:]
                     return v
                 cmt = {"x.properties": "# note\n", "x.dtd": "<!-- note -->\n", "x.ftl": "# note\n"}[name]
-                l10n = pad + "".join(("\n" * rng.randint(0, 2)) + (cmt if rng.random() < 0.25 else "")
+                l10n = pad + "".join(("\n" * rng.randint(0, 2)) + (cmt * rng.randint(1, 2) if rng.random() < 0.35 else "")
                                      + fmtline(k, val()) for k in rng.sample(keys, 3))
                 rp, lp = os.path.join(tmp, "ref_" + name), os.path.join(tmp, name)
                 open(rp, "w").write(reftext)
@@ -229,6 +229,15 @@ def check_positions(chk):
                                    else "encoding-warning-position")
                             chk.fail(sig, {"file": name, "l10n": l10n, "message": text},
                                      {"replacement_characters_at": spots, "reported": [line, col]})
+                        continue
+                    if name.endswith(".ftl") and start < (line, col) < tuple(expected_linecol(l10n, e.key_span[0])):
+                        # Fluent entries span their attached comment; check messages are about the
+                        # id, value or attributes and their offsets are AST spans of those nodes
+                        # (offset 0, the entity start itself, is used for whole-entry messages)
+                        chk.fail("check-position-inside-attached-comment",
+                                 {"file": name, "l10n": l10n, "message": text},
+                                 {"entity_start": start, "reported": [line, col],
+                                  "id_start": expected_linecol(l10n, e.key_span[0])})
                         continue
                     if not (start <= (line, col) <= eof) or col < 1 or line < 1:
                         # DTD results whose checker position has line 0 (whole-value warnings (0, 0),
